@@ -16,6 +16,7 @@ enum { E_NAIVE, E_GAUSS, E_M4RI, E__M4RI, E_HYBRID, E_PLUQ, E_TOP };
 static const double THRESH[] = {0.0, 0.05, 0.15, 0.5, 1.0, 2.0};
 
 /* shared input generator for elimination-like ops: returns matrix, fills description */
+int GEN_AIM_BOOST = 0; /* set by the cross-configuration monitor: favour shapes that are recursive in one build and base case in another */
 static int PREFER_BLOCK; /* set by aim_recursive_shape: the next input should favour block rank profiles */
 /* shapes that straddle the base-case / block-recursion boundary of PLE (width*nrows around the PLE cutoff, ncols > 64) */
 static int aim_recursive_shape(rng_t *r, int md, int *pm, int *pn) {
@@ -83,7 +84,7 @@ static rm_t *gen_elim_input(rng_t *r, int m, int n, char *desc, size_t cap, int 
 static void gen_ech(opcase_t *c, rng_t *r, int maxdim) {
   int v = c->op->variant;
   int m = gen_dim(r, maxdim), n = gen_dim(r, maxdim + maxdim / 2);
-  if ((v == E_PLUQ || v == E_HYBRID || v == E__M4RI) && rng_chance(r, 1, 6)) aim_recursive_shape(r, maxdim, &m, &n);
+  if ((v == E_PLUQ || v == E_HYBRID || v == E__M4RI) && rng_chance(r, 1, GEN_AIM_BOOST ? 2 : 6)) aim_recursive_shape(r, maxdim, &m, &n);
   int full = rng_int(r, 0, 1), k = rng_int(r, 0, 10), heur = 0;
   double thr = 1.0;
   char d[96];
@@ -176,7 +177,7 @@ static void gen_ple(opcase_t *c, rng_t *r, int maxdim) {
   int md = maxdim;
   if (v == P_PLE_NAIVE || v == P_PLUQ_NAIVE) md = maxdim < 300 ? maxdim : 300;
   /* shapes straddling the base-case / recursion boundary of this build */
-  if ((v == P_PLE || v == P_PLUQ || v == P__PLE || v == P__PLUQ) && rng_chance(r, 1, 3) && aim_recursive_shape(r, md, &m, &n)) {
+  if ((v == P_PLE || v == P_PLUQ || v == P__PLE || v == P__PLUQ) && rng_chance(r, 1, GEN_AIM_BOOST ? 2 : 3) && aim_recursive_shape(r, md, &m, &n)) {
   } else {
     m = gen_dim(r, md);
     n = gen_dim(r, md);
@@ -478,7 +479,7 @@ static void gen_solve(opcase_t *c, rng_t *r, int maxdim) {
   int t = rng_int(r, 0, 5);
   if (t == 0) n = m;
   if (t == 1 && m > 1) n = m + rng_int(r, 1, 3); /* m < n with few padding rows */
-  if (rng_chance(r, 1, 8)) aim_recursive_shape(r, maxdim, &m, &n);
+  if (rng_chance(r, 1, GEN_AIM_BOOST ? 2 : 8)) aim_recursive_shape(r, maxdim, &m, &n);
   int w = rng_chance(r, 1, 2) ? rng_int(r, 1, 200) : gen_dim(r, maxdim);
   char d[96];
   int kind;
@@ -572,7 +573,7 @@ static uint64_t canon_solve(opcase_t *c) { return 1000 + (uint64_t)(c->iret[0] +
 /* ------------------------------------------------------------------ kernel (C07) */
 static void gen_kernel(opcase_t *c, rng_t *r, int maxdim) {
   int m = gen_dim(r, maxdim), n = gen_dim(r, maxdim);
-  if (rng_chance(r, 1, 5)) aim_recursive_shape(r, maxdim, &m, &n); /* the kernel is read off a PLUQ factorisation */
+  if (rng_chance(r, 1, GEN_AIM_BOOST ? 2 : 5)) aim_recursive_shape(r, maxdim, &m, &n); /* the kernel is read off a PLUQ factorisation */
   char d[96];
   int kind;
   c->in[0] = gen_elim_input(r, m, n, d, sizeof d, NULL, &kind);
